@@ -169,6 +169,13 @@ func (g *projGen) method(ci, mi int, prefixParams []string, types []pType, file 
 					t = "[]" + t
 				} else if r.Chance(1, 4) {
 					t = "*" + t
+				} else if os.Getenv("VH_MAP_BODY") != "" && r.Chance(1, 5) {
+					// (C06's stream only: the routes generator refuses EVERY project with a map body - "generated routes are not
+					// valid Go", which C09 allows - so only the documents can be looked at)
+					// a map is a body like any other non-pointer value: required unless it is behind a pointer
+					// (a map whose VALUE type is a declared struct makes the routes generator refuse the project - "generated
+					// routes are not valid Go" - which C09 allows; only builtin value types here)
+					t = rng.Pick(r, []string{"map[string]string", "map[string]int", "*map[string]int"})
 				}
 				bind("Body", fmt.Sprintf("v%d", idx), t, "")
 				idx++
@@ -596,6 +603,7 @@ func genProject(r *rng.R, nPerturb int) (pProject, []string) {
 		}
 	}
 	nc := 1 + r.Intn(3)
+	preApplied := []string{}
 	for ci := 0; ci < nc; ci++ {
 		c := pController{Name: fmt.Sprintf("Ctl%d", ci), Pkg: "ctl", File: rng.Pick(r, []string{"a.go", "b.go"}), Grouped: r.Chance(1, 5)}
 		c.FieldFirst = !c.Grouped && r.Chance(1, 5)
@@ -631,6 +639,18 @@ func genProject(r *rng.R, nPerturb int) (pProject, []string) {
 				file = rng.Pick(r, []string{"a.go", "b.go", "c.go"})
 			}
 			c.Methods = append(c.Methods, g.method(ci, mi, prefixParams, p.Types, file))
+		}
+		if len(prefixParams) > 0 && nPerturb > 0 && r.Bool() {
+			// the prefix's `{tenant}` written once more in a method's own route: a duplicate URL parameter of the FULL
+			// template, although each of the two parts names it once
+			m := &c.Methods[r.Intn(len(c.Methods))]
+			for ai := range m.Annots {
+				if m.Annots[ai].Name == "Route" {
+					m.Annots[ai].Value += "/again/{" + prefixParams[0] + "}"
+					preApplied = append(preApplied, "repeat-prefix-param")
+					break
+				}
+			}
 		}
 		p.Controllers = append(p.Controllers, c)
 	}
@@ -681,7 +701,7 @@ func genProject(r *rng.R, nPerturb int) (pProject, []string) {
 		}
 		p.Controllers[ci].Methods = append(p.Controllers[ci].Methods, gm)
 	}
-	applied := []string{}
+	applied := append([]string{}, preApplied...)
 	// a custom error type is as good as `error`
 	for ci := range p.Controllers {
 		if p.Controllers[ci].Pkg != "ctl" {
